@@ -261,14 +261,14 @@ def bgzf_blocks(path):
 class GafFile:
     """a written GAF file with its independent description"""
 
-    def __init__(self, path, g, recs, bgzf):
-        self.path, self.g, self.bgzf = path, g, bgzf
+    def __init__(self, path, g, recs, bgzf, eol="\n"):
+        self.path, self.g, self.bgzf, self.eol = path, g, bgzf, eol
         self.recs = [list(r) for r in recs]
         self.lines = ["\t".join(r) for r in self.recs]
         self.stable = bool(self.recs) and is_stable_path(self.recs[0][5])
         self.trav = [traversed(g, r) for r in self.recs]
-        write_lines(path, self.recs, bgzf=bgzf)
-        lens = [len(l.encode()) + 1 for l in self.lines]
+        write_lines(path, self.recs, bgzf=bgzf, eol=eol)
+        lens = [len(l.encode()) + len(eol) for l in self.lines]
         starts, t = [], 0
         for n in lens:
             starts.append(t)
@@ -314,13 +314,13 @@ class GafFile:
         if not self.bgzf:
             with open(self.path, "rb") as f:
                 f.seek(off)
-                return f.readline().decode().rstrip("\n")
+                return f.readline().decode("utf-8", "replace").rstrip("\r\n")  # a wrong offset may fall inside a multi-byte character
         c, w = off >> 16, off & 0xFFFF
         idx = [i for i, (bc, _d) in enumerate(self.blocks) if bc == c]
         if not idx:
             return None
         data = b"".join(d for _c, d in self.blocks[idx[0]:])[w:]
-        return data.split(b"\n", 1)[0].decode()
+        return data.split(b"\n", 1)[0].decode("utf-8", "replace").rstrip("\r")
 
     def expected_index(self):
         """(id, SN, SO, SO+LN) -> set of canonical offsets, for the aligned nodes only"""
@@ -340,14 +340,24 @@ class GafFile:
         return set().union(*self.trav)
 
     def to_case(self, **kw):
-        c = {"gfa": self.g.lines(), "gaf": self.lines, "bgzf": self.bgzf}
+        c = {"gfa": self.g.lines(), "gaf": self.lines, "bgzf": self.bgzf, "eol": self.eol}
         c.update(kw)
         return c
 
 
 def write_graph(d, g, name="g.gfa"):
+    """every second graph (decided by a checksum of its text, so a replay writes the same file) is written with its S / L lines in a
+    shuffled order: an rGFA need not be sorted, the segments of a contig then are NOT in SO order in the file"""
+    import random
+    import zlib
     p = os.path.join(d, name)
-    g.write(p)
+    ls = g.lines()
+    crc = zlib.crc32("\n".join(ls).encode())
+    order = None
+    if crc % 2 == 1:
+        order = list(range(len(ls)))
+        random.Random(crc).shuffle(order)
+    g.write(p, order=order)
     return p
 
 
@@ -447,7 +457,7 @@ def load_case(ctx, c, pad=None):
     d = ctx.dir("replay")
     g = graph_from_lines(c["gfa"])
     gfa = write_graph(d, g)
-    gf = GafFile(os.path.join(d, "in.gaf" + (".gz" if c.get("bgzf") else "")), g, [l.split("\t") for l in c["gaf"]], c.get("bgzf", False))
+    gf = GafFile(os.path.join(d, "in.gaf" + (".gz" if c.get("bgzf") else "")), g, [l.split("\t") for l in c["gaf"]], c.get("bgzf", False), eol=c.get("eol", "\n"))
     return d, g, gfa, gf
 
 
